@@ -1,7 +1,74 @@
-import OlVerif.Lower.Stmt
+/-
+  C05 -- break / continue / return / else are lowered with exact statement-level control flow.
+
+  Property theorems over M-CTRL (OlVerif/Ctrl): the skeleton language, the lowering (pure
+  two-pass formulation of `_iter_branch` and the loop / if / interrupt classes, compared as
+  emitted trees with the converter on every generated skeleton), the source semantics `Exec`
+  and the target semantics `Eval` (compared as event traces with CPython on every generated
+  skeleton and schedule).  The helper lemmas and the induction are in OlVerif/Ctrl/*.lean.
+-/
+import OlVerif.Ctrl.Correct
+import OlVerif.Ctrl.RunSound
+
 namespace OlVerif.C05
-/-- placeholder obligation while the semantic development is being written:
-    code after a direct interrupt is never part of a live block -/
+open OlVerif.Ctrl
+
+variable {σ : Type} {W : World σ}
+
+/-- **Module and class-body placement.**  For *every* world - every interpretation of the simple
+    statements, conditions, iterables and iterator steps as state transformers over any state
+    type, hence every user state, every branch schedule, one-shot iterators, side-effecting
+    conditions - every nesting of if / while / for / else / break / continue, both expression
+    wrappers and both if-styles: whenever the source block runs from `s` to `s'`, the lowered
+    code evaluates from `s` to `s'` (and the block ends normally).  With the state taken to be the
+    trace of marker, condition, `iter()` and `next()` events this is the statement of the
+    property: the same statements and conditions in the same order, nothing after a taken
+    break / continue, else iff not broken, the iterable evaluated and `iter()` taken once, the
+    iterator advanced exactly as often as in the source and never after a break. -/
+theorem lower_correct_module (style : IfStyle) (wrap : Wrapper) (p : List Sk) (hwf : WfModule p)
+    {s s' : σ} {sig : Sig} (h : Exec W (.block p) s s' sig) (fl : Flag → Bool) (rv : Option Nat) :
+    sig = .normal ∧ ∃ fl' rv', Eval W (.seq (lowerModule style wrap p)) ⟨s, fl, rv⟩ ⟨s', fl', rv'⟩ true :=
+  Ctrl.lower_correct_module style wrap p hwf h fl rv
+
+/-- **Function placement.**  The same for function bodies with `return` at any nesting; in
+    addition the return cell ends holding the value of the `return` that was taken, and keeps
+    its initial `None` when none was. -/
+theorem lower_correct_function (style : IfStyle) (wrap : Wrapper) (p : List Sk) (hwf : WfFunction p)
+    {s s' : σ} {sig : Sig} (h : Exec W (.block p) s s' sig) (fl : Flag → Bool) :
+    ∃ fl' rv', Eval W (.seq (lowerFn style wrap p)) ⟨s, fl, none⟩ ⟨s', fl', rv'⟩ true ∧
+      rv' = (match sig with | .ret (some v) => some v | _ => none) ∧ (sig = .normal ∨ ∃ v, sig = .ret v) :=
+  Ctrl.lower_correct_function style wrap p hwf h fl
+
+/-- **The invariant behind both** (`block_inv` of DESIGN.md): for a statement / block lowered under
+    any loop and function context whose flow-control flag is currently false (if it is read at
+    all), the lowered code reaches the source's state, and afterwards: after normal completion
+    the flags of the context are untouched; after `break` the innermost loop's break flag is set,
+    its interrupt flag too if it is read, outer flags untouched; after `continue` likewise without
+    the break flag; after `return` every enclosing loop's break flag is set, their interrupt flags
+    and the function's return flag if read, and the return cell holds the value. -/
+theorem block_inv {b : List Sk} {s s' : σ} {sig : Sig} (h : Exec W (.block b) s s' sig)
+    (cx : Cx) (fl : Flag → Bool) (rv : Option Nat) (hg : GoodB cx b) (hinv : Inv cx fl) :
+    ∃ fl' rv', Eval W (.seq (lowerB cx b)) ⟨s, fl, rv⟩ ⟨s', fl', rv'⟩ true ∧ Post cx sig fl rv fl' rv' :=
+  lower_correct_item h cx fl rv hg hinv
+
+/-- **A signal is only produced where the analysis pass sees its cause**: a block that ends by
+    `break` / `continue` / `return` contains a live one (the soundness of the counters the
+    implementation uses to decide where guards go). -/
+theorem signal_has_cause {item : Item} {s s' : σ} {sig : Sig} (h : Exec W item s s' sig) : Poss item sig :=
+  exec_poss h
+
+/-- **The executable semantics run by the correspondence check are the semantics of the
+    theorems**: whatever the fuel-bounded interpreters compute (and the check compares, event by
+    event, with CPython's execution of the source and of the converter's output) is a derivation
+    of the relational semantics above. -/
+theorem run_source_sound (n : Nat) (item : Item) (s s' : σ) (sig : Sig)
+    (h : runS W n item s = some (s', sig)) : Exec W item s s' sig :=
+  runS_sound n item s s' sig h
+
+theorem run_target_sound (n : Nat) (item : TItem) (s s' : TS σ) (b : Bool)
+    (h : runT W n item s = some (s', b)) : Eval W item s s' b :=
+  (runT_sound n item s s' b h).1
+
 theorem live_idem (b : List Stmt) : live (live b) = live b := by
   induction b with
   | nil => rfl
@@ -10,4 +77,13 @@ theorem live_idem (b : List Stmt) : live (live b) = live b := by
     split
     · simp [live, *]
     · simp [live, *]
+
+/-! non-vacuity: concrete skeletons meet the hypotheses -/
+
+/-- `def f(): for x0 in it(0): (if c(1): return r(2)); m(3)  else: m(4)` with a while loop after it -/
+example : WfFunction [.for_ 0 [.ite 1 [.ret (some 2)] [], .atom 3] [.atom 4], .whl 5 [.ite 6 [.brk] [.cont], .atom 7] []] := by
+  unfold WfFunction; decide
+
+example : WfModule [.whl 0 [.for_ 1 [.ite 2 [.brk] []] [.cont], .atom 3] [.atom 4]] := by unfold WfModule; decide
+
 end OlVerif.C05
